@@ -29,14 +29,16 @@ theorem foldl_frame {α : Type} (f : List RefKey → α → List RefKey) (t : Na
   | [], _ => rfl
   | a :: l, rs => by rw [List.foldl_cons, foldl_frame f t hf l, hf]
 
-theorem writeRefs_frame (rs : List RefKey) (ds t : Nat) (prev : Option Ent) (ib : Bool) (e : Ent) :
-    (writeRefs rs ds t prev ib e).filter (fun r => decide (r.t ≠ t)) = rs.filter (fun r => decide (r.t ≠ t)) := by
+theorem writeRefs_frame (rs : List RefKey) (ds t : Nat) (prev : Option Ent) (ib : Bool) (nw : Bool) (e : Ent) :
+    (writeRefs rs ds t prev ib nw e).filter (fun r => decide (r.t ≠ t)) = rs.filter (fun r => decide (r.t ≠ t)) := by
   unfold writeRefs
   cases prev with
   | none =>
     simp only
     split
-    · rfl
+    · split
+      · exact foldl_frame _ t (fun rs r => refSet_frame rs _ t rfl) _ _
+      · rfl
     · exact foldl_frame _ t (fun rs r => refSet_frame rs _ t rfl) _ _
   | some p =>
     simp only
@@ -50,10 +52,10 @@ theorem writeRefs_frame (rs : List RefKey) (ds t : Nat) (prev : Option Ent) (ib 
       · exact refSet_frame _ _ t rfl
 
 /-- what one loop iteration does to the keys of other times: nothing. -/
-theorem writeOne_frame (snap : DB) (ds t : Nat) (st : DB × List (Nat × Ent)) (x : Nat × Ent) :
-    (writeOne snap ds t st x).1.refs.filter (fun r => decide (r.t ≠ t)) = st.1.refs.filter (fun r => decide (r.t ≠ t))
-    ∧ (∃ new, (writeOne snap ds t st x).1.versions = st.1.versions ++ new ∧ ∀ v ∈ new, v.1.t = t ∧ v.1.ds = ds)
-    ∧ (writeOne snap ds t st x).1.deletedDs = st.1.deletedDs := by
+theorem writeOne_frame (snap : DB) (ds t : Nat) (nw : List Nat) (st : DB × List (Nat × Ent)) (x : Nat × Ent) :
+    (writeOne snap ds t nw st x).1.refs.filter (fun r => decide (r.t ≠ t)) = st.1.refs.filter (fun r => decide (r.t ≠ t))
+    ∧ (∃ new, (writeOne snap ds t nw st x).1.versions = st.1.versions ++ new ∧ ∀ v ∈ new, v.1.t = t ∧ v.1.ds = ds)
+    ∧ (writeOne snap ds t nw st x).1.deletedDs = st.1.deletedDs := by
   unfold writeOne
   simp only
   have hc : ∀ p, (countNew st.1 ds p).refs = st.1.refs ∧ (countNew st.1 ds p).versions = st.1.versions
@@ -67,16 +69,16 @@ theorem writeOne_frame (snap : DB) (ds t : Nat) (st : DB × List (Nat × Ent)) (
     · intro v hv; simp at hv; subst hv; exact ⟨rfl, rfl⟩
     · simp [appendVersion, (hc _).2.2]
 
-theorem writeFrom_frame (snap : DB) (ds t : Nat) :
+theorem writeFrom_frame (snap : DB) (ds t : Nat) (nw : List Nat) :
     ∀ (xs : List Ent) (i : Nat) (st : DB × List (Nat × Ent)),
-      (writeFrom snap ds t i xs st).1.refs.filter (fun r => decide (r.t ≠ t)) = st.1.refs.filter (fun r => decide (r.t ≠ t))
-      ∧ (∃ new, (writeFrom snap ds t i xs st).1.versions = st.1.versions ++ new ∧ ∀ v ∈ new, v.1.t = t ∧ v.1.ds = ds)
-      ∧ (writeFrom snap ds t i xs st).1.deletedDs = st.1.deletedDs
+      (writeFrom snap ds t nw i xs st).1.refs.filter (fun r => decide (r.t ≠ t)) = st.1.refs.filter (fun r => decide (r.t ≠ t))
+      ∧ (∃ new, (writeFrom snap ds t nw i xs st).1.versions = st.1.versions ++ new ∧ ∀ v ∈ new, v.1.t = t ∧ v.1.ds = ds)
+      ∧ (writeFrom snap ds t nw i xs st).1.deletedDs = st.1.deletedDs
   | [], _, st => ⟨rfl, ⟨[], by simp [writeFrom], by simp⟩, rfl⟩
   | e :: xs, i, st => by
     unfold writeFrom
-    obtain ⟨h1, ⟨n1, hv1, hn1⟩, hd1⟩ := writeOne_frame snap ds t st (i, e)
-    obtain ⟨h2, ⟨n2, hv2, hn2⟩, hd2⟩ := writeFrom_frame snap ds t xs (i + 1) (writeOne snap ds t st (i, e))
+    obtain ⟨h1, ⟨n1, hv1, hn1⟩, hd1⟩ := writeOne_frame snap ds t nw st (i, e)
+    obtain ⟨h2, ⟨n2, hv2, hn2⟩, hd2⟩ := writeFrom_frame snap ds t nw xs (i + 1) (writeOne snap ds t nw st (i, e))
     refine ⟨by rw [h2, h1], ⟨n1 ++ n2, by rw [hv2, hv1, List.append_assoc], ?_⟩, by rw [hd2, hd1]⟩
     intro v hv
     rcases List.mem_append.1 hv with hv | hv
